@@ -474,6 +474,10 @@ class Interp:
                 o = self.eval(t.value, env)
                 if isinstance(o, Obj) and t.attr in o.fields:
                     del o.fields[t.attr]
+                elif isinstance(o, SymObj) and t.attr in o.attrs:
+                    del o.attrs[t.attr]
+                elif isinstance(o, SymObj) and getattr(o, "closed", False):
+                    raise PyRaise(AttributeError(t.attr))
                 else:
                     raise Unsupported("del attribute")
             else:
